@@ -95,8 +95,8 @@ def main():
         # demo with the patch
         run = open(os.path.join(src, "demo", "RUN.txt")).read().strip().split("\n")[0]
         run = run.replace("<demo>", os.path.join(src, "demo"))
-        run = re.sub(r"\s+\(env:.*\)\s*$", "", run)
         run = re.sub(r"\s+#.*$", "", run)
+        run = re.sub(r"\s+\(env:.*\)\s*$", "", run)
         demo_files = []
         for root, _, files in os.walk(os.path.join(src, "demo")):
             for f in files:
